@@ -233,7 +233,7 @@ pub fn def() -> PropDef {
         rule: "random histories (2-12 ops) of add / set-limit / set-markers / search / tokenize_query on one store (Store API, or the registry API in 1/4 of cases) over all 7 languages, adversarial Unicode titles and queries derived from the stored titles (separator deleted/inserted, typo, prefix, substring), ratings < 2^31, limits in [0, 2^16]; the decoder never consults the library, so the shipping-build leg regenerates identical cases from the same seeds. Non-trivial = the history contains a search whose query has >= 1 word and returns >= 1 hit; distinct = distinct hash of the decoded history",
         assumptions: &[
             "a hang is detected by a 60 s per-case watchdog and reported as INCONCLUSIVE (exit 2), not decided",
-            "allocation blow-ups are decided only up to the 6 GiB address-space cap per worker",
+            "allocation blow-ups are decided only up to the 3 GiB address-space cap per worker",
             "shipping build = cargo profile with opt-level 3, no overflow checks, no debug assertions, hooks off, same rustc",
         ],
         spaces: vec![Space { name: "history", decode, plan: |t| Plan::Random(t.n(48_000, 2_000_000)) }],
